@@ -25,8 +25,9 @@ RULE = (
     "of source triangles, pulled back through the first map by its reference inverse when the PWA comes second). "
     "programs: an accumulator and 1-8 steps drawn from {compose_before, compose_after, their in-place forms, "
     "compose_after_from_vector_inplace} with the operand drawn fresh, re-used from an earlier step, or the accumulator "
-    "itself; 1 program in 4 starts from a proper sub-family of Affine (Translation, Similarity, Rotation, UniformScale, "
-    "plain or alignment), is first composed in place with a wider affine-family operand and then stays in its own sub-family. decompose: any of the 11 affine-family classes "
+    "itself; 1 program in 3 starts from a proper sub-family of Affine (Translation, Similarity, Rotation, UniformScale, "
+    "mostly their alignment forms), is first composed in place with a wider affine-family operand, then plainly with "
+    "itself or an alignment of its own class, and then mostly stays in its own sub-family. decompose: any of the 11 affine-family classes "
     "in 2-D/3-D. Non-trivial: grid/pairs - neither operand is the "
     "identity and the operands are two objects; programs - >= 2 executed steps of which >= 1 is an accepted in-place "
     "step; decompose - a genuine 4-factor decomposition of a non-identity affine. Distinct = distinct canonical-JSON digest."
@@ -656,33 +657,41 @@ def s_operand(draw, d):
     return draw(objs.transform_case(d=d, kinds=kinds))
 
 
-WIDE_RECEIVERS = ["Translation", "AlignmentTranslation", "Similarity", "AlignmentSimilarity", "Rotation", "AlignmentRotation",
-                  "UniformScale", "AlignmentUniformScale", "AlignmentTranslation", "AlignmentRotation"]
+SUBFAMILY_RECEIVERS = (["AlignmentTranslation", "AlignmentRotation", "AlignmentUniformScale"] * 3
+                       + ["AlignmentSimilarity", "Translation", "Rotation", "UniformScale", "Similarity"])
+WIDER_OPERANDS = ["Similarity", "Similarity", "Translation", "Translation", "Affine", "Rotation", "UniformScale",
+                  "NonUniformScale", "AlignmentAffine"]
 
 
 @st.composite
 def s_programs(draw):
     d = draw(st.sampled_from([2, 2, 3]))
     n = draw(st.integers(1, 8))
-    # 1 program in 4 starts from a proper sub-family of Affine, is first composed IN PLACE with a wider affine-family
-    # operand (refused with ValueError unless the class's composes_inplace_with is wider than the class) and then
-    # stays within its own sub-family, so that the ladder's "same class" / as_non_alignment branches see the receiver
-    family = draw(st.sampled_from([None] * 30 + WIDE_RECEIVERS))
+    # 1 program in 3 is a "sub-family" program: it starts from a proper sub-family of Affine (mostly the alignment
+    # forms, whose plain compositions go through as_non_alignment), is first composed IN PLACE with a wider
+    # affine-family operand (refused with ValueError unless the class's composes_inplace_with is wider than the
+    # class), then composed plainly with itself or an alignment of its own class (the ladder's "same class" branch),
+    # and then mostly stays within its own sub-family
+    family = draw(st.sampled_from([None] * 28 + SUBFAMILY_RECEIVERS))
     steps = []
     for i in range(n):
         op = draw(st.sampled_from(PROG_OPS + ["before_inplace", "after_inplace"]))
         if family is not None and i == 0:
             op = draw(st.sampled_from(["before_inplace", "after_inplace"]))
+        elif family is not None and i == 1:
+            op = draw(st.sampled_from(["before", "after"]))
         stp = {"op": op}
         if op == "after_vec":
             stp["vec"] = draw(st.lists(gen.q(-1, 1), min_size=16, max_size=16))
         else:
             how = draw(st.sampled_from(["new", "new", "new", "reuse", "reuse", "acc"]))
-            if family is not None and i == 0:
-                how = "new"
-            if how == "new" and family is not None and (i == 0 or draw(st.booleans())):
-                kinds = ["Affine", "Rotation", "NonUniformScale", "UniformScale", "AlignmentAffine", "Similarity", "Translation"] if i == 0 else [
-                    family, family.replace("Alignment", ""), "Alignment" + family.replace("Alignment", "")]
+            own = False
+            if family is not None:
+                how = "new" if i == 0 else draw(st.sampled_from(["new", "new", "reuse", "acc", "acc"]))
+                own = i <= 1 or draw(st.sampled_from([True, True, False]))
+            if how == "new" and own:
+                base = family.replace("Alignment", "")
+                kinds = WIDER_OPERANDS if i == 0 else ["Alignment" + base, "Alignment" + base, base]
                 stp["new"] = draw(objs.homog_case(kind=draw(st.sampled_from(kinds)), d=d))
             elif how == "new":
                 stp["new"] = draw(s_operand(d))
